@@ -82,7 +82,7 @@ def cases(tier, seed):
     rng = random.Random('C17|%d' % seed)
     T = tier == 'thorough'
     cs = []
-    nstruct = 40 if not T else 400
+    nstruct = 90 if not T else 700
     k = 2 if not T else 4
     for i in range(nstruct):
         cls = ['spd', 'dd', 'lap'][i % 3]
@@ -98,7 +98,7 @@ def cases(tier, seed):
                 cs.append({'gen': 'solve', 'routine': 'amen_solve', 'cls': cls, 'N': N, 'RB': gens.rank_profile(rng, d, 'rand', 2 if cls == 'spd' else 3), 'Rb': gens.rank_profile(rng, d, 'rand', 3),
                            'rhs': ['random', 'image'][i % 2], 'cfac': 10 ** rng.uniform(-0.3, 1.5), 'shift': [0.0, 0.1][(i // 3) % 2], 'eps': 10 ** rng.uniform(-9, -3), 'prec': prec,
                            'max_full': [0, 500][j % 2] if prec is not None else [500, 0][(i + j) % 2], 'x0': ['none', 'user'][(i // 3 + j + pi) % 2], 'vseed': rng.randrange(2 ** 40), 'sidx': j})
-    for i in range(60 if not T else 500):
+    for i in range(140 if not T else 1000):
         d = rng.choice([1, 2, 2, 3, 3, 4, 5, 6])
         while True:
             M = [rng.randint(1, 6) for _ in range(d)]
